@@ -330,7 +330,20 @@ def gen_probes(ctx, c, tables):
             arg, typ = r.choice(ARG_NODESET), "N"
             if r.random() < 0.3 and ndocs > 1:
                 arg = "$d%d%s" % (r.randrange(ndocs), r.choice(["//@x", "//b", "//@y", "//text()", "//a/@*"]))
-        probes.append({"doc": j, "ctx": cx, "name": name, "arg": arg, "type": typ})
+        pr = {"doc": j, "ctx": cx, "name": name, "arg": arg, "type": typ, "cur": None}
+        if ndocs > 1 and r.random() < 0.35:
+            # key() evaluated inside a predicate over the nodes of document j while the XSLT current node is in
+            # ANOTHER document i: the table to consult is the one of the XPath context node (j), not of the current node
+            i = r.choice([x for x in range(ndocs) if x != j])
+            if r.random() < 0.4:
+                pr["cur"] = "$d%d" % i
+            else:
+                e = r.choice(all_elems(docs[i]))
+                pr["cur"] = "$d%d//*[@id='%s']" % (i, e.eid)
+                if r.random() < 0.2 and len(e.attrs) > 1:
+                    pr["cur"] += "/@" + r.choice([a for a, _ in e.attrs])
+            pr["ctx"] = "every node of $d%d in turn (predicate), current node %s" % (j, pr["cur"])
+        probes.append(pr)
     # repeated probes (history independence)
     for _ in range(r.choice([1, 2, 3])):
         probes.append(dict(r.choice(probes)))
@@ -421,7 +434,17 @@ def probe_xml(c, pi, p):
         vals = 'S|<xsl:value-of select="$a"/>'
         kexpr = "key('%s',%s)" % (called, p["arg"])
     bf = bf_expr(c, p)
-    s = '<xsl:for-each select="%s">%s<xsl:text>P|%d|V|</xsl:text>%s' % (xa(p["ctx"]), var, pi, vals)
+    if p.get("cur"):
+        # the argument is bound at the current node (document i); key() and the brute force are evaluated in the
+        # same place: a predicate whose context node runs over every node of document j
+        alln = "($d%d | $d%d//node() | $d%d//@*)" % (p["doc"], p["doc"], p["doc"])
+        kin = "key('%s',$a)" % called
+        kexpr = "%s[count(. | %s) = count(%s)]" % (alln, kin, kin)
+        if bf:
+            bf = "%s[count(. | %s) = count(%s)]" % (alln, bf, bf)
+        s = '<xsl:for-each select="%s">%s<xsl:text>P|%d|V|</xsl:text>%s' % (xa(p["cur"]), var, pi, vals)
+    else:
+        s = '<xsl:for-each select="%s">%s<xsl:text>P|%d|V|</xsl:text>%s' % (xa(p["ctx"]), var, pi, vals)
     s += '<xsl:text>&#10;P|%d|K|</xsl:text><xsl:for-each select="%s"><xsl:call-template name="d"/><xsl:text>,</xsl:text></xsl:for-each>' % (pi, xa(kexpr))
     if bf:
         s += '<xsl:text>&#10;P|%d|B|</xsl:text><xsl:for-each select="%s"><xsl:call-template name="d"/><xsl:text>,</xsl:text></xsl:for-each>' % (pi, xa(bf))
@@ -697,6 +720,8 @@ def evaluate(ctx, cases, exe, model):
                 K, B, C, V = e["K"], e["B"], e["C"], e["V"]
                 ctx.count("arg:%s" % ("string" if V[0] == "S" else "nodeset-%s" % ("0" if not V[1] else "1" if len(V[1]) == 1 else "many")))
                 ctx.count("result:%s" % ("empty" if not K else "1" if len(K) == 1 else "many"))
+                if p.get("cur"):
+                    ctx.count("probe:context-document-differs-from-current:%s" % ("empty" if not K else "non-empty"))
                 known = None
                 if many_with_empty(V):
                     ctx.count("arg:nodeset-many-with-empty-value")
@@ -761,7 +786,7 @@ def evaluate(ctx, cases, exe, model):
 
 
 def probe_ident(p):
-    return (p["doc"], p["ctx"], p["name"][0], p["arg"])
+    return (p["doc"], p["ctx"], p["name"][0], p["arg"], p.get("cur"))
 
 
 # ---------------------------------------------------------------------------------------------
